@@ -334,6 +334,8 @@ static void finish_thread(int me) {
 static void *thread_body(void *p) {
     int me = ((ThreadArg *)p)->idx;
     t_thr = me; t_in_sut = 0; t_in_sim = 0;
+    // every thread of the caller has its own signal mask (per-thread state that a wrapped call has to leave as it found it)
+    { sigset_t m; sigemptyset(&m); if (me & 1) sigaddset(&m, SIGUSR1); if (me & 2) sigaddset(&m, SIGUSR2); if (me % 3 == 0) sigaddset(&m, SIGWINCH); sigaddset(&m, SIGRTMIN + 3 + me % 8); pthread_sigmask(SIG_BLOCK, &m, nullptr); }
     fwait(&S.t[me].futex);
     const std::vector<ExecOp> &calls = *S.t[me].calls;
     for (size_t k = 0; k < calls.size(); k++) exec_call(calls[k], S.t[me].first_opi + (int)k, (*S.t[me].obs)[(size_t)S.t[me].first_opi + k]);
